@@ -283,7 +283,8 @@ func c07Table(r *core.Run, begin, joinFn, newFn *core.FuncInfo) {
 	for _, m := range modes {
 		split = append(split, "mode:"+m)
 	}
-	sp := &flow.Spec{W: w, Depth: 0, Split: split,
+	// (the decision may be taken by a helper that hands back what to do: the analysis continues per way out of it)
+	sp := &flow.Spec{W: w, Depth: 0, Split: split, Fork: true,
 		Classify: func(pkg *packages.Package, call *ast.CallExpr, callee *types.Func) []flow.Tag {
 			switch {
 			case core.IsPkgFunc(callee, pTM, "IsGlobalTx"):
